@@ -63,6 +63,11 @@ CHECKS = {
          "Generated F2003 programs must regenerate identically under both parsers (case-insensitively when F2008 intrinsics "
          "are referenced); generated programs with a 2008-only production must be rejected by the 2003 parser and accepted "
          "by the 2008 parser; each catalogue member is also checked in isolation.", TRUST, "DESIGN.md 5 C17"),
+ "C09": ("bounded-exhaustive + random history testing in forked pristine processes (differential against a fresh process; state invariants after failures)",
+         "All histories of creates and parses of 11 state-touching sources up to length 3 (quick) / 4 (thorough) plus random "
+         "longer ones with generated and mutated programs run in children forked from a process that never created a parser; "
+         "results must equal those of a fresh process and failing parses must leave scope and tables untouched.",
+         TRUST, "DESIGN.md 5 C09"),
  "C01": ("property-based round-trip (Hypothesis-driven program generator; parse/print/parse fixpoint oracle)",
          "Random programs from a structured Fortran generator are parsed, printed, re-parsed and re-printed; "
          "trees and texts must agree. Exploration is the right level: the domain is an infinite grammar.",
@@ -70,6 +75,6 @@ CHECKS = {
 }
 NOT_APPLICABLE = {
  pid: "check not built yet (work in progress; see DESIGN.md 5)" for pid in
- [ "C09",
+ [
   "C19", "C20"]
 }
